@@ -78,6 +78,23 @@ def gen_cases(rng, tier):
         which = rng.randrange(len(keys) + 1)   # index of the sector given a wrong shape (len = none)
         cases.append({'kind': 'setdata', 'norb': norb, 'n': nn, 'bad': which,
                       'vec': fqeio.random_state(rng, norb, keys, density=0.8), 'how': rng.choice(['rows', 'cols', 'transpose'])})
+    # ---- H. spin-orbital labels of FermionOperators at the boundary of the orbital space: the largest label L in
+    # {2norb-2, 2norb-1} addresses an existing spin orbital, L in {2norb, 2norb+1, 2norb+2} does not (even and odd
+    # labels, i.e. alpha and beta of the first missing orbital, are separate boundaries); few-term and many-term routes
+    for norb in (2, 3):
+        for dl in (-2, -1, 0, 1, 2):
+            for nterms in (1, 3):
+                for entry in ('apply', 'evolve', 'build'):
+                    for wmode in ('ns', 'sb'):
+                        if rng.random() < (0.5 if tier == 'quick' else 0.0):
+                            continue
+                        L = 2 * norb + dl
+                        partner = L - 2 if L - 2 >= 0 else L % 2      # same spin: S_z conserving hop
+                        terms = [[[[L, 1], [partner, 0]], 1, 0], [[[partner, 1], [L, 0]], 1, 0]]
+                        for t in range(nterms - 1):
+                            q = rng.randrange(2 * norb - 1)
+                            terms.append([[[q, 1], [q, 0]], rng.randint(1, 3), 0])
+                        cases.append({'kind': 'label', 'norb': norb, 'L': L, 'terms': terms, 'entry': entry, 'mode': wmode})
     # ---- G. non-Hermitian single-term generators
     for ops, c in (([[0, 1], [2, 0]], [1, 0]), ([[0, 1], [2, 0]], [0, 1]), ([[0, 1], [0, 0]], [0, 1]), ([[0, 1], [0, 0]], [2, 0])):
         for two in (False, True):
@@ -192,6 +209,24 @@ def run_impl(case, mode):
         st, _ = _try(lambda: w.set_wfn(strategy='from_data', raw_data=data))
         st['unchanged'] = _snap(w) == before
         st['nsec'] = len(keys)
+        return st
+    if k == 'label':
+        norb = case['norb']
+        w = fqeio.make_wfn(norb, case['mode'], norb, 0 if case['mode'] == 'sb' or norb % 2 == 0 else 1, None)
+        w.set_wfn(strategy='ones')
+        op = FermionOperator()
+        for ops, re, im in case['terms']:
+            op += FermionOperator(tuple((q, d) for q, d in ops), complex(re, im))
+        before = _snap(w)
+        if case['entry'] == 'apply':
+            st, _ = _try(lambda: w.apply(op))
+        elif case['entry'] == 'evolve':
+            st, _ = _try(lambda: w.time_evolve(0.1, op))
+        elif case['entry'] == 'expect':
+            st, _ = _try(lambda: w.expectationValue(op))
+        else:
+            st, _ = _try(lambda: fqe.get_hamiltonian_from_openfermion(op, norb=norb))
+        st['unchanged'] = _snap(w) == before
         return st
     if k == 'nonherm':
         w = fqeio.make_wfn(2, 'ns', 2, 0, None)
@@ -327,6 +362,17 @@ def compare(case, got, exp, mode):
             elif not got['unchanged']:
                 bad.append('PARTIAL-UPDATE set_wfn(from_data) raised %s for sector #%d but had already overwritten other sectors' % (got.get('raised'), case['bad']))
         return bad
+    if k == 'label':
+        inside = case['L'] < 2 * case['norb']
+        what = '%s with a FermionOperator whose largest spin-orbital label is %d (norb = %d, %d terms)' % (
+            case['entry'], case['L'], case['norb'], len(case['terms']))
+        if inside and not got['ok']:
+            bad.append('%s raised %s: %s' % (what, got.get('raised'), got.get('msg')))
+        if not inside and got['ok']:
+            bad.append('%s was answered instead of refused: the label addresses no spin orbital of the space' % what)
+        if not got['unchanged']:
+            bad.append('%s modified the wavefunction' % what)
+        return bad
     if k == 'nonherm':
         herm = (not case['two'] and sorted(q for q, d in case['ops'] if d) == sorted(q for q, d in case['ops'] if not d) and case['c'][1] == 0) or \
                (case['two'] and case['c'][1] == 0)
@@ -351,6 +397,8 @@ def case_class(case):
     k = case['kind']
     if k == 'apply':
         return 'apply/%s/%s/d%+d/hcn%d' % (case['mode'], case['ham']['cls'], case['hnorb'] - case['norb'], case['hcn'])
+    if k == 'label':
+        return 'label/%s/%s/L%+d/%dterms' % (case['entry'], case['mode'], case['L'] - 2 * case['norb'], len(case['terms']))
     return k
 
 
